@@ -123,11 +123,21 @@ fn normalise(t: &LT) -> LT {
     }
 }
 
+/// truth / budget entries are compared as numbers (the lexicon fixes keywords, not how a
+/// number is spelt: `1` vs `1.0` must not matter)
+fn num(s: &str) -> String {
+    match s.parse::<f64>() {
+        Ok(x) => format!("#{:016x}", x.to_bits()),
+        Err(_) => s.to_string(),
+    }
+}
+
 fn normalise_n(v: &LN) -> LN {
+    let sen = |s: &LS| LS { term: normalise(&s.term), punct: s.punct.clone(), stamp: s.stamp.clone(), truth: s.truth.iter().map(|x| num(x)).collect() };
     match v {
         LN::Term(t) => LN::Term(normalise(t)),
-        LN::Sentence(s) => LN::Sentence(LS { term: normalise(&s.term), ..s.clone() }),
-        LN::Task { budget, s } => LN::Task { budget: budget.clone(), s: LS { term: normalise(&s.term), ..s.clone() } },
+        LN::Sentence(s) => LN::Sentence(sen(s)),
+        LN::Task { budget, s } => LN::Task { budget: budget.iter().map(|x| num(x)).collect(), s: sen(s) },
     }
 }
 
